@@ -40,6 +40,7 @@ type program struct {
 	IR      int64                      // ir_version of the rendered model (0 = the usual one)
 	Opsets  []*onnx.OperatorSetIdProto // opset imports of the rendered model (nil = the usual one)
 	NoNames bool                       // nodes are rendered without names
+	DeclOut int                        // 0: outputs declared by name only, 1: with their static shapes, 2: some under another rank
 	Shadow  map[string]bool            // initializers that are also graph inputs
 	nameSeq int
 	r       *gen.R
@@ -125,8 +126,21 @@ func (p *program) Graph(outputs []string) *mon.Graph {
 	for _, n := range p.Nodes {
 		g.Nodes = append(g.Nodes, n.G)
 	}
-	for _, o := range outputs {
-		g.Outputs = append(g.Outputs, mon.GInput{Name: o, NoType: true})
+	for i, o := range outputs {
+		decl := mon.GInput{Name: o, NoType: true}
+		// how the outputs are declared changes nothing: without type, with their static shape,
+		// or (a sloppy exporter) with the right element count under another rank
+		if v := p.Values[o]; v != nil && p.DeclOut > 0 && v.DT != ref.Str {
+			shape := v.Shape
+			if p.DeclOut == 2 && (i+len(o))%2 == 0 {
+				shape = []int{ref.NumElems(v.Shape)}
+				if len(v.Shape) == 1 {
+					shape = []int{1, v.Shape[0]}
+				}
+			}
+			decl = mon.GInput{Name: o, DT: v.DT, Dims: mon.FixedDims(shape)}
+		}
+		g.Outputs = append(g.Outputs, decl)
 	}
 	return g
 }
@@ -777,6 +791,7 @@ func genProgramX(r *gen.R, maxNodes int, rich bool) *program {
 	if r.Chance(0.3) { // node names are optional
 		p.NoNames = true
 	}
+	p.DeclOut = r.PickInt(0, 0, 0, 1, 2)
 	if rich && r.Chance(0.25) { // the default domain may be spelled "" or "ai.onnx"; other domains have their own versions
 		switch r.Intn(5) {
 		case 0:
